@@ -389,7 +389,8 @@ class Recfile(object):
                 result = self._read_columns(colnums, rows)
 
         if isscalar:
-            result = result[columns]
+            # the name may have come in through either keyword
+            result = result[result.dtype.names[0]]
         elif split:
             result = split_fields(result)
 
